@@ -42,6 +42,8 @@ type clockWorld struct {
 	ops    []string
 	ticks  *Stream
 	crossed bool
+	tc      *treeCache
+	nEval   int
 }
 
 func (w *clockWorld) violation(oracle, class, detail string) {
@@ -54,7 +56,8 @@ func (w *clockWorld) eval(text string) (v interface{}, err error, pan interface{
 			pan = p
 		}
 	}()
-	src, perr := formula.ParseSourceCode([]byte(text))
+	w.nEval++
+	src, perr := w.tc.parse(text, w.nEval%2 == 0)
 	if perr != nil {
 		panic("clock formula does not parse: " + text + ": " + perr.Error())
 	}
@@ -476,7 +479,8 @@ func runClock(rc *RunCtx) {
 	saved := time.Local
 	time.Local = loc
 	defer func() { time.Local = saved; simClock.onRead = nil }()
-	w := &clockWorld{rc: rc, r: formula.NewRunner(), ctx: context.Background(), loc: loc, ticks: rc.tape.Stream("faults")}
+	tc := &treeCache{} // shared by all callers of the run: a parsed formula may be shared across goroutines
+	w := &clockWorld{rc: rc, r: formula.NewRunner(), ctx: context.Background(), loc: loc, ticks: rc.tape.Stream("faults"), tc: tc}
 	w.r.SetThis(map[string]interface{}{})
 	simClock.now = w.randomInstant(pl).UTC()
 	simClock.onRead = nil
@@ -520,7 +524,7 @@ func runClock(rc *RunCtx) {
 		counts := []int{n}
 		for t := 1; t <= extra; t++ {
 			ws := rc.tape.Stream("workload-" + strconv.Itoa(t))
-			wt := &clockWorld{rc: rc, r: formula.NewRunner(), ctx: context.Background(), loc: loc, ticks: rc.tape.Stream("faults-" + strconv.Itoa(t))}
+			wt := &clockWorld{rc: rc, r: formula.NewRunner(), ctx: context.Background(), loc: loc, ticks: rc.tape.Stream("faults-" + strconv.Itoa(t)), tc: tc}
 			wt.r.SetThis(map[string]interface{}{})
 			worlds = append(worlds, wt)
 			streams = append(streams, ws)
@@ -556,6 +560,7 @@ func runClock(rc *RunCtx) {
 		shape.addString(o)
 	}
 	rc.probes["clock_ops"] += int64(len(w.ops))
+	rc.probes["evaluations_of_an_already_evaluated_tree"] += int64(tc.hits)
 	rc.ev.add(shape.h)
 	rc.sig = shape.h
 	rc.nontriv = len(w.ops) >= 2
